@@ -49,14 +49,19 @@
  * Sequences are limited to 2^31-1 values (Parquet page/chunk value counts are i32; the RLE header
  * carries run_len << 1 in 32 bits). */
 #define RLE_ENC_MAX_VALUES ((int64_t)0x7FFFFFFF)
-#define RLE_ENC_INV(e) ( \
+#define RLE_ENC_INV_CORE(e) ( \
   (e)->bit_width >= 0 && (e)->bit_width <= 32 && (e)->buffer != NULL && \
   (e)->bitpack_count >= 0 && (e)->bitpack_count < 8 && (e)->bitpack_total == (e)->bitpack_count && \
   (e)->repeat_count >= 0 && (e)->repeat_count <= RLE_ENC_MAX_VALUES && \
+  G_put >= 0 && G_put <= RLE_ENC_MAX_VALUES && G_emitted >= 0 && G_emitted <= G_put && G_pad == 0)
+#define RLE_ENC_INV(e) ( RLE_ENC_INV_CORE(e) && \
   ((e)->has_prev || ((e)->repeat_count == 0 && (e)->bitpack_count == 0)) && \
   ((e)->repeat_count >= 1 || (e)->bitpack_count == 0) && \
-  G_put >= 0 && G_put <= RLE_ENC_MAX_VALUES && G_emitted >= 0 && G_emitted <= G_put && \
-  G_pad == 0 && G_emitted + (e)->bitpack_count + (e)->repeat_count == G_put)
+  G_emitted + (e)->bitpack_count + (e)->repeat_count == G_put)
+/* status is sticky; while it is still OK no append has failed (enc_append records the first failure) */
+#define RLE_ENC_FRAME \
+  __CPROVER_ensures(__CPROVER_old(enc->status) != CARQUET_OK ==> enc->status == __CPROVER_old(enc->status)) \
+  __CPROVER_ensures(enc->status == CARQUET_OK ==> rle_append_failures == __CPROVER_old(rle_append_failures))
 
 #ifdef CQV
 /* ghost state, defined in stubs/rle_stubs.c (harnesses havoc it: zero-initialised ghosts would make the
@@ -66,6 +71,18 @@ extern unsigned rle_append_failures;      /* appends that reported failure (assu
 #define RLE_REC_CAP 64
 extern uint8_t rle_rec[RLE_REC_CAP];      /* bytes appended so far (only with -DRLE_STUB_RECORD) */
 extern size_t rle_rec_len;
+extern size_t G_zero_rle_pos;            /* decoder position when a zero-length RLE run hands over to the next run */
+extern int G_zero_rle_seen;
+#ifdef RLE_C12_GHOST
+/* the FIRST zero-length RLE run of a start_new_run call chain is recorded; later ones keep it */
+#define RLE_ZG , G_zero_rle_pos, G_zero_rle_seen
+#define RLE_ZG_SET(p) ((G_zero_rle_seen) ? (void)0 : (void)(G_zero_rle_pos = (p), G_zero_rle_seen = 1))
+#define RLE_ZG_LOOP_INV
+#else
+#define RLE_ZG
+#define RLE_ZG_SET(p) ((void)0)
+#define RLE_ZG_LOOP_INV
+#endif
 #ifdef RLE_CHECK_APPEND
 #define RLE_APPEND_POST(c) __CPROVER_ensures(c)
 #else
